@@ -34,6 +34,18 @@ CLAIMED["C04"] = {
     "design": "5 C04",
 }
 
+CLAIMED["C12"] = {
+    "text": "Containers.tla models Vector, string, Map and range views with every std:: precondition explicit (each operation is a total "
+            "function to a result or 'throws'); TLC explores the state graphs (values {1,2}, length <= 3 quick / 4 thorough, index classes "
+            "{-1,0,size-1,size,size+1,huge}) checking WithinModel/Total, and exports one record per transition; every transition is "
+            "replayed as its own test through the script API in an ASan/UBSan build (result or exception, and full contents afterwards), "
+            "followed by seeded walks of 3-10 operations through the same graph.",
+    "note": "Reads/writes outside the container are observed by ASan on the replayed cases (TLC decides the abstract bounds only); "
+            "range views are exercised only while their container is not structurally modified (excluded by the property).",
+    "technique": "TLA+ state graph (TLC) with one implementation test per transition, replayed under ASan",
+    "design": "5 C12",
+}
+
 PENDING_REASON = "check not built yet in this session; planned (see DESIGN.md section 8)"
 
 ALL = [f"C{i:02d}" for i in range(1, 21)]
